@@ -14,7 +14,7 @@ PickStart == /\ stage = "start"
              /\ stage' = "path"
 Cur == IF Len(cfg.path) = 0 THEN cfg.from ELSE cfg.path[Len(cfg.path)]
 Extend == /\ stage = "path" /\ Len(cfg.path) < MaxPath
-          /\ \E to \in {"ns", "na", "np3", "mi", "long", "t2"} :
+          /\ \E to \in {"ns", "na", "np3", "np3n", "mi", "long", "t2"} :
                  /\ <<Cur, to>> \in Edges /\ (to = "t2" => Len(cfg.names) = 1)
                  \* the long table is keyed by identifiers (rows are records): order of appearance of
                  \* unsorted instance / time labels is only claimed for the other representations
